@@ -401,16 +401,19 @@ pub fn switch(
         {
             *new_shape.row_count_mut() = sh.row_count();
         }
-        if args.iter().any(|v| v.row_count() == 0)
-            && push_empty_rows_value(
-                &branches[0],
-                &args[1..],
-                false,
-                &mut Default::default(),
-                env,
-            )
-        {
-            return Ok(());
+        if args.iter().any(|v| v.row_count() == 0) {
+            // A branch only gets the top arguments that it takes or passes through.
+            // The arguments are in reverse order here.
+            let f = &branches[0];
+            let kept = f.sig.args() + sig.outputs().saturating_sub(f.sig.outputs());
+            let kept_args = args[1..].iter().rev().take(kept);
+            let height = env.rt.stack.len();
+            if push_empty_rows_value(f, kept_args, false, &mut Default::default(), env) {
+                if env.rt.stack.len() == height + sig.outputs() {
+                    return Ok(());
+                }
+                env.rt.stack.truncate(height);
+            }
         }
         let arg_shapes: Vec<Shape> = args[1..].iter().map(|v| v.shape.clone()).collect();
         let FixedRowsData {
